@@ -470,7 +470,49 @@ def rule_leftmost(ctx: Ctx) -> None:
                  construct="leftmost_nontrivial_index: shape")
 
 
+def rule_elim_direction(ctx: Ctx) -> None:
+    """elim.direction: in the elimination routines of stabilizer.py (inverse_circuit, canonical_form, the rref helpers) a row is cleared by
+    multiplying the *pivot row into it*: tab_row_sum(tableau, pivot_row, row) with the row being visited by the innermost loop as the
+    target.  With the two swapped the pivot row is overwritten again and again and the visited rows keep their entry."""
+    repo = ctx.repo
+    m = repo.module(STABF)
+    n = 0
+    for fn in [f for f in m.tree.body if isinstance(f, ast.FunctionDef) and f.name not in ("tab_row_sum", "tab_row_swap")]:
+        for lp in [l for l in ast.walk(fn) if isinstance(l, ast.For) and isinstance(l.target, ast.Name)]:
+            v = lp.target.id
+            for st in lp.body:
+                # only calls whose innermost enclosing loop is this one
+                for c in [x for x in ast.walk(st) if isinstance(x, ast.Call) and (call_attr(x) or getattr(x.func, "id", "")) == "tab_row_sum" and len(x.args) == 3]:
+                    inner = next((a for a in _ancestors(c) if isinstance(a, ast.For)), None)
+                    if inner is not lp:
+                        continue
+                    a_names = {y.id for y in ast.walk(c.args[1]) if isinstance(y, ast.Name)}
+                    b_names = {y.id for y in ast.walk(c.args[2]) if isinstance(y, ast.Name)}
+                    if v not in a_names and v not in b_names:
+                        continue
+                    n += 1
+                    ctx.touch(m, fn)
+                    if v in b_names and v not in a_names:
+                        ctx.ok("elim.direction", m, c, what=f"{fn.name}: pivot row multiplied into the visited row `{v}`")
+                    else:
+                        ctx.fail("elim.direction", m, c,
+                                 f"{fn.name}: `{short(c)}` multiplies the visited row `{v}` into `{short(c.args[2])}`; the row being cleared must be the target "
+                                 f"(third argument) and the pivot row the one that is added: as written the pivot row accumulates every visited row and "
+                                 f"the visited rows keep the entry that was to be eliminated", func=fn.name,
+                                 construct=f"{fn.name}: tab_row_sum direction ({short(c.args[1], 20)}, {short(c.args[2], 20)})")
+    if n < 6:
+        raise AnalysisError(f"elim.direction: only {n} elimination calls found in stabilizer.py (8 confirmed by hand)")
+
+
+def _ancestors(n):
+    p = parent(n)
+    while p is not None:
+        yield p
+        p = parent(p)
+
+
 def arm(ctx: Ctx) -> None:
+    rule_elim_direction(ctx)
     rule_classify(ctx)
     rule_dispatch(ctx)
     rule_steps(ctx)
